@@ -220,6 +220,7 @@ def run_C01(ctx, R):
     _per_config(ctx, R, parse.tab1_depth_balance)
     _per_config(ctx, R, parse.bnd6)
     _per_config(ctx, R, parse.tab2_parse)
+    _per_config(ctx, R, _only_functions(_own_cjson, PARSE_FNS, 'OWN2', 8))      # "... or a leak"
 
 
 def run_C10(ctx, R):
@@ -232,7 +233,8 @@ def run_C10(ctx, R):
             if o.function == 'cJSON_ParseWithLengthOpts' or o.rule == 'BND5' or 'summary' in o.what:
                 r.obs.append(o)
         r.notes.extend(tmp.notes)
-        r.floor('BND5', 'obligations on the entry function', len(r.obs), 6)
+        r.floor('BND5', 'obligations on the entry function', len(r.obs), 4)
+        r.floor('BND5', 'publications of a failure position', len([o for o in r.obs if o.rule == 'BND5']), 1)
     _per_config(ctx, R, only_entry)
     _per_config(ctx, R, parse.c10_structure)
     _per_config(ctx, R, parse.tab2_parse)
@@ -606,7 +608,9 @@ PROPERTIES = {
             "EFF7: no store through anything derived from the input. TAB1: every recursion cycle of the parser passes a "
             "CJSON_NESTING_LIMIT test with the counter incremented on every path to the recursive call and handed down; "
             "the counter is decremented before every successful return. BND6: every loop of the family steps a cursor "
-            "or counter forward on every iteration. TAB2: the string entry points add only strlen+1.",
+            "or counter forward on every iteration. TAB2: the string entry points add only strlen+1. OWN2 over the parse family: "
+            "whatever a parsing function allocates is linked into the result, released, or handed to a callee that takes it, on "
+            "every path (the 'or a leak' clause; allocation failures included).",
         'not_decided': ["write bound of parse_string's output block (count over the whole literal)",
                         'leak freedom on every exit (OWN rules, C03/C08)',
                         'that the returned tree can be walked/printed/deleted (LST1 covers the tail link only)',
